@@ -65,6 +65,18 @@ pub struct YamlEmitter<'a> {
 pub type EmitResult = Result<(), EmitError>;
 
 // from serialize::json
+/// The non-ASCII characters YAML does not count as printable (they must be written as escapes).
+fn is_non_printable_non_ascii(c: char) -> bool {
+    matches!(c, '\u{80}'..='\u{84}' | '\u{86}'..='\u{9f}' | '\u{feff}' | '\u{fffe}' | '\u{ffff}')
+}
+
+/// The non-printable, non-ASCII character starting at byte `i` of `v`, if there is one.
+fn non_printable_at(v: &str, i: usize) -> Option<char> {
+    v.get(i..)
+        .and_then(|rest| rest.chars().next())
+        .filter(|c| is_non_printable_non_ascii(*c))
+}
+
 fn escape_str(wr: &mut dyn fmt::Write, v: &str) -> Result<(), fmt::Error> {
     wr.write_str("\"")?;
 
@@ -107,11 +119,20 @@ fn escape_str(wr: &mut dyn fmt::Write, v: &str) -> Result<(), fmt::Error> {
             b'\x1e' => "\\u001e",
             b'\x1f' => "\\u001f",
             b'\x7f' => "\\u007f",
+            // The lead byte of a 2- or 3-byte character that is not printable either (C1 controls
+            // other than NEL, a byte order mark, U+FFFE, U+FFFF): escaped as a whole below.
+            0xc2 | 0xef if non_printable_at(v, i).is_some() => "",
             _ => continue,
         };
 
         if start < i {
             wr.write_str(&v[start..i])?;
+        }
+
+        if let Some(c) = non_printable_at(v, i) {
+            write!(wr, "\\u{:04x}", c as u32)?;
+            start = i + c.len_utf8();
+            continue;
         }
 
         wr.write_str(escaped)?;
@@ -443,12 +464,9 @@ fn need_quotes(string: &str) -> bool {
             | '\"'
             | '\''
             | '\\'
-            | '\0'..='\x06'
-            | '\t'
-            | '\n'
-            | '\r'
-            | '\x0e'..='\x1a'
-            | '\x1c'..='\x1f')
+            | '\0'..='\x1f'
+            | '\x7f')
+                || is_non_printable_non_ascii(character)
         })
         || [
             // http://yaml.org/type/bool.html
